@@ -130,6 +130,7 @@ def run(chk, repo, tier):
                           witness='an EVID=4 record with ADDL>0 followed by observations between the additional doses: the '
                                   'expanded records are not in chronological order and time after dose becomes negative')
     run_more(chk, repo, dm)
+    run_q8(chk, repo, dm)
 
 
 def run_more(chk, repo, dm):
@@ -206,3 +207,37 @@ def run_more(chk, repo, dm):
                           'instead of falling back to the next source (MDV, then EVID, then AMT)', line=comps[0].lineno,
                           witness='drop_columns(model, ["MDV"], mark=True) on data whose MDV also flags BLQ samples: '
                                   'get_observations still uses MDV')
+
+
+def run_q8(chk, repo, dm):
+    from sa.cfg import CFG
+    Q8 = chk.rule('Q8', 'add_time_after_dose: the column that expand_additional_doses fills with the additional dose times is '
+                        'the column TAD is computed from', floor=1)
+    f = dm.functions.get('add_time_after_dose')
+    if f is None:
+        raise AnalysisError('add_time_after_dose not found')
+    cfg = CFG(f.node)
+    exp_nodes = [n for n in cfg.nodes.values() if n.kind == 'stmt' and n.ast is not None
+                 and any(isinstance(c, ast.Call) and dotted(c.func) == 'expand_additional_doses' for c in ast.walk(n.ast))]
+    reads = [c.value for c in ast.walk(f.node) if isinstance(c, ast.Subscript) and isinstance(c.slice, ast.Constant)
+             and isinstance(c.slice.value, str) and c.slice.value.startswith('_') and 'TIME' in c.slice.value]
+    if not exp_nodes:
+        chk.instance(Q8, 'add_time_after_dose does not expand additional doses')
+        return
+    col = next((c.slice.value for c in ast.walk(f.node) if isinstance(c, ast.Subscript) and isinstance(c.slice, ast.Constant)
+                and isinstance(c.slice.value, str) and c.slice.value.startswith('_') and 'TIME' in c.slice.value), None)
+    if col is None:
+        raise AnalysisError('Q8: working time column not found')
+    retype = {n.id for n in cfg.nodes.values() if n.kind == 'stmt' and n.ast is not None
+              and any(isinstance(c, ast.Call) and isinstance(c.func, ast.Attribute) and c.func.attr == 'replace'
+                      and any(k.arg == 'type' and isinstance(k.value, ast.Constant) and k.value.value == 'idv' for k in c.keywords)
+                      and col in unparse(c.func.value) for c in ast.walk(n.ast))}
+    for e in exp_nodes:
+        ok = bool(retype) and e.id not in cfg.reachable(cfg.entry, avoid=retype, labels_excluded=('exc', 'fexc'))
+        chk.instance(Q8, f'`{e.text()[:60]}` is reached only after `{col}` was declared the idv column: {ok}')
+        if not ok:
+            chk.violation(Q8, dm.rel, 'add_time_after_dose', e.text()[:80],
+                          f'expand_additional_doses writes the times of the additional doses into the idv column of the model it '
+                          f'is given; TAD is computed from `{col}`, which is not that column here', line=e.line,
+                          witness='a dose with ADDL > 0 and observations after the first additional dose: their TAD counts from '
+                                  'the original dose record')
